@@ -130,6 +130,7 @@ Definition mon_step (cfg : config) (m : mon) (o : op) (f : bool) : mon :=
   | Observe c oa => mon_observe cfg m c oa
   | MarkClosed c => mkMon (m_cred m) (mon_close (m_closed m) c)
   | Disconnect c => mon_disconnect m c
+  | ObservePair c oa ob => mon_observe cfg (mon_observe cfg m c oa) c ob   (* the LATEST report is the one that counts *)
   | ObserveDuring c oa d =>
       if f then mon_observe cfg (mon_disconnect m d) c oa else mon_observe cfg m c oa
   end.
@@ -295,6 +296,10 @@ Fixpoint conform_run (cfg : config) (st : state) (i : Z) (tr : list (op * obs)) 
                           as op 1, with a hook on the listenAddrs() call made inside
                           shouldRecordObservation: there conn d gets IsClosed() true and
                           removeConn(d) is delivered; fired = 1 iff the hook was reached
+          | 5 c (lb n64 relay otw ofam oproto){2}
+                          two reports of conn c, in this order; on the event-bus path the
+                          first is held inside shouldRecordObservation (at listenAddrs())
+                          until the second has been queued, then released
    observation := (k x_1..x_k){nQ}   AddrsFor(query_j) as observed thin-waist ids
                                       (-9 = an address the harness cannot attribute)
                   k (x rest){k}      Addrs(0)
@@ -380,6 +385,9 @@ Definition take_op (l : list Z) : option (op * bool * list Z) :=
       Some (Observe c (mkObs (zbool lb) (zbool n64) (zbool rl) (tw_of ot ofam opr)), false, r)
   | 2 :: c :: r => Some (MarkClosed c, false, r)
   | 3 :: c :: r => Some (Disconnect c, false, r)
+  | 5 :: c :: lb :: n64 :: rl :: ot :: ofam :: opr :: lb2 :: n642 :: rl2 :: ot2 :: ofam2 :: opr2 :: r =>
+      Some (ObservePair c (mkObs (zbool lb) (zbool n64) (zbool rl) (tw_of ot ofam opr))
+                          (mkObs (zbool lb2) (zbool n642) (zbool rl2) (tw_of ot2 ofam2 opr2)), false, r)
   | 4 :: c :: lb :: n64 :: rl :: ot :: ofam :: opr :: d :: f :: r =>
       Some (ObserveDuring c (mkObs (zbool lb) (zbool n64) (zbool rl) (tw_of ot ofam opr)) d, zbool f, r)
   | _ => None
